@@ -6,7 +6,7 @@
 static const char *CLS[] = { "ok", "num_words", "lang", "checksum", "unsupported", "format", "memory", "mult_lang", NULL };
 struct inp { char name[40]; int kind; /* 0 load 1 decode auto 2 decode explicit 3 create */ uint8_t buf[32]; char str[1200]; int li; unsigned coin; unsigned feat; };
 static struct inp IN[200]; static int NIN;
-static int seen[4][8][3];
+static int seen[4][8][3]; static long LAST_REQUESTS, MAX_REQUESTS;
 
 static void run(const struct inp *in, unsigned mask, long fail, int nullalloc, struct res *r) {
     char rep[100], key[160]; sprintf(rep, "case %d %u %ld %d", (int)(in - IN), mask, fail, nullalloc);
@@ -14,17 +14,25 @@ static void run(const struct inp *in, unsigned mask, long fail, int nullalloc, s
     polyseed_enable_features(mask);
     env_clear_log(); E.fail_at = fail;
     polyseed_data *s = (polyseed_data *)(uintptr_t)0xBAD; const polyseed_lang *lo = NULL; int st = -1, want = -1; rseed rs;
-    int fails = (fail == 0);
+    /* status the model gives when no allocation fails */
+    int nofault = -1;
     switch (in->kind) {
-    case 0: st = polyseed_load(in->buf, &s); want = fails ? ST_MEMORY : ref_load(in->buf, mask, &rs); break;
-    case 1: st = polyseed_decode(in->str, in->coin, &lo, &s); want = ref_decode(in->str, in->coin, -1, mask, fails, CAP, &rs, NULL); break;
-    case 2: st = polyseed_decode_explicit(in->str, in->coin, polyseed_get_lang(in->li), &s); want = ref_decode(in->str, in->coin, in->li, mask, fails, CAP, &rs, NULL); break;
-    case 3: st = polyseed_create(in->feat, &s); want = !ref_supported(in->feat & 7, mask) ? ST_UNSUPPORTED : fails ? ST_MEMORY : ST_OK; break;
+    case 0: st = polyseed_load(in->buf, &s); nofault = ref_load(in->buf, mask, &rs); break;
+    case 1: st = polyseed_decode(in->str, in->coin, &lo, &s); nofault = ref_decode(in->str, in->coin, -1, mask, 0, CAP, &rs, NULL); break;
+    case 2: st = polyseed_decode_explicit(in->str, in->coin, polyseed_get_lang(in->li), &s); nofault = ref_decode(in->str, in->coin, in->li, mask, 0, CAP, &rs, NULL); break;
+    case 3: st = polyseed_create(in->feat, &s); nofault = !ref_supported(in->feat & 7, mask) ? ST_UNSUPPORTED : ST_OK; break;
     }
+    LAST_REQUESTS = E.alloc_seq;
+    int fired = (fail >= 0 && E.alloc_seq > fail);        /* was the failing request actually made? */
+    int want2 = -1;
+    if (!fired) want = nofault;
+    else if ((in->kind == 1 || in->kind == 2) && (nofault == ST_NUM_WORDS || nofault == ST_LANG || nofault == ST_MULT_LANG || nofault == ST_CHECKSUM)) want = nofault;   /* these are reported before a memory error */
+    else { want = ST_MEMORY; if (in->kind == 3 && nofault == ST_UNSUPPORTED) want2 = ST_UNSUPPORTED; }
+    if (st == want2) want = want2;
     E.fail_at = -1;
     r->cases++; r->calls++;
     r->digest ^= mix64((uint64_t)(in - IN) * 64 + mask * 8 + (uint64_t)(fail + 1) * 2 + (uint64_t)nullalloc, st);
-    if (st >= 0 && st < 8) { r->cls[st]++; seen[in->kind][st][fail + 1 > 2 ? 2 : fail + 1] = 1; }
+    if (st >= 0 && st < 8) { r->cls[st]++; seen[in->kind][st][fail < 0 ? 0 : fired ? 1 : 2] = 1; }
     const char *bad = NULL; static char why[200];
     if (st != want) { snprintf(why, sizeof why, "status %d, model %d", st, want); bad = why; }
     else if (st == POLYSEED_OK) { if (ledger_live() != 1) bad = "successful call: not exactly one block live"; else { uint8_t a[32], b[32]; polyseed_store(s, a); if (in->kind != 3) { ref_storage(&rs, b); if (memcmp(a, b, 32)) bad = "seed differs from the model"; } polyseed_free(s); if (ledger_live()) bad = "block not returned by free"; } }
@@ -34,7 +42,7 @@ static void run(const struct inp *in, unsigned mask, long fail, int nullalloc, s
     if (!bad && !nullalloc && (E.n_libc_malloc || E.n_libc_free)) bad = "libc allocator used although an allocator was injected";
     /* the following call behaves normally */
     if (!bad) { polyseed_enable_features(7); polyseed_data *t = NULL; int st2 = polyseed_create(1, &t); r->calls++; if (st2 != POLYSEED_OK) bad = "the call after the fault did not behave normally"; else polyseed_free(t); }
-    if (bad) { snprintf(key, sizeof key, "c15:fault:%s:%s", in->name, fail == 0 ? "alloc-fails" : "alloc-ok"); res_viol(r, key, rep, "%s mask=%u fail_at=%ld libc-allocator=%d: %s", in->name, mask, fail, nullalloc, bad); ledger_drop_all(); }
+    if (bad) { snprintf(key, sizeof key, "c15:fault:%s:%s", in->name, fail >= 0 ? "alloc-fails" : "alloc-ok"); res_viol(r, key, rep, "%s mask=%u fail_at=%ld libc-allocator=%d: %s", in->name, mask, fail, nullalloc, bad); ledger_drop_all(); }
     else r->validated++;
 }
 
@@ -106,10 +114,13 @@ int main(int argc, char **argv) {
         int i = atoi(argv[a + 1]); run(&IN[i], atoi(argv[a + 2]), atol(argv[a + 3]), atoi(argv[a + 4]), r); fill_differential(&IN[i], atoi(argv[a + 2]), r);
         printf("%s\n", IN[i].name); for (int j = 0; j < r->nviol; j++) printf("REPRODUCED %s: %s\n", r->v[j].key, r->v[j].msg); return r->nviol ? 1 : 0;
     }
-    for (int i = 0; i < NIN; i++) for (unsigned mask = 0; mask < 8; mask += (mask == 0 ? 5 : 2)) for (long fail = -1; fail <= 1; fail++) for (int na = 0; na < 2; na++) run(&IN[i], mask, fail, na, r);
+    for (int i = 0; i < NIN; i++) for (unsigned mask = 0; mask < 8; mask += (mask == 0 ? 5 : 2)) for (int na = 0; na < 2; na++) {
+        run(&IN[i], mask, -1, na, r); long n = LAST_REQUESTS; if (n > MAX_REQUESTS) MAX_REQUESTS = n;
+        for (long fail = 0; fail <= n; fail++) run(&IN[i], mask, fail, na, r);      /* every request of the call made to fail, and one beyond (never reached) */
+    }
     for (int i = 0; i < NIN; i++) fill_differential(&IN[i], 7, r);
     int triples = 0; for (int k = 0; k < 4; k++) for (int s = 0; s < 8; s++) for (int f = 0; f < 3; f++) triples += seen[k][s][f];
     res_sample(r, "%d inputs (one per entry point x outcome class) x masks {0,5,7} x fail_at {none,0,1} x {injected, libc} allocator; e.g. \"%s\"", NIN, IN[NIN - 1].name);
-    out_begin(); out_part("entry points x outcome classes x failing allocation request", r, CLS, ""); out_kv_int("fault_distinct_triples", triples); out_kv_int("fault_inputs", NIN); out_end();
+    out_begin(); out_part("entry points x outcome classes x failing allocation request", r, CLS, ""); out_kv_int("fault_distinct_triples", triples); out_kv_int("fault_inputs", NIN); out_kv_int("max_allocation_requests_per_call", MAX_REQUESTS); out_end();
     return 0;
 }
